@@ -34,6 +34,19 @@ theorem C03_quditX_qubit (E : Env2 A R) (h : Lawful2 E) (t s : A) :
     h.rat_0_2, h.rat_2_2, h.ratR_half, h1, h4, h5, hc, hs, hz, ho]
   mat_eq
 
+/-- the `(Z, False, Z, False)` interaction is the documented `CZ**t` matrix -/
+theorem C03_pauliInteraction_CZ (E : Env2 A R) (h : Lawful2 E) (t : A) :
+    pauliInteraction E 3 false 3 false t = [[1, 0, 0, 0], [0, 1, 0, 0], [0, 0, 1, 0], [0, 0, 0, E.ph t]] := by
+  have hh := h.half_def
+  simp only [pauliInteraction, pauliProj, madd2, kron, smul, eye, pauliZ, List.range, List.range.loop, List.map_cons, List.map_nil,
+    List.zipWith_cons_cons, List.zipWith_nil_left, List.flatMap_cons, List.flatMap_nil, List.append_nil, List.cons_append, List.nil_append,
+    Bool.false_eq_true, if_false]
+  simp only [if_true, Nat.zero_ne_one, Nat.one_ne_zero, if_false,
+    show ¬((0 : Nat) = 2) from by decide, show ¬((0 : Nat) = 3) from by decide, show ¬((1 : Nat) = 2) from by decide, show ¬((1 : Nat) = 3) from by decide,
+    show ¬((2 : Nat) = 0) from by decide, show ¬((2 : Nat) = 1) from by decide, show ¬((2 : Nat) = 3) from by decide,
+    show ¬((3 : Nat) = 0) from by decide, show ¬((3 : Nat) = 1) from by decide, show ¬((3 : Nat) = 2) from by decide]
+  mat_eq
+
 theorem C03_depolarize_length (E : Env2 A R) (p : A) (n : Nat) : (depolarize E p n).length = 4 ^ n := by
   have : 1 ≤ 4 ^ n := Nat.pow_pos (by omega)
   simp [depolarize]; omega
